@@ -32,6 +32,7 @@ def gen_history(seed, mode, nops, policy, fsz, tsz, unit, step, slack, utc, bump
         nv = 0
         exc_seen = False
         k = 0
+        nf = rnd.random() < 0.4        # a writer that does not flush every record (write(..., flush=False) + flush())
         while True:
             if labels is not None:
                 if k >= len(labels):
@@ -40,7 +41,7 @@ def gen_history(seed, mode, nops, policy, fsz, tsz, unit, step, slack, utc, bump
             else:
                 if k >= nops:
                     break
-                lab = _choose(rnd, rp, world, mode, policy, clock, closed, maxused, need_floor, res['nrec'])
+                lab = _choose(rnd, rp, world, mode, policy, clock, closed, maxused, need_floor, res['nrec'], nf)
                 if lab is None:
                     k += 1
                     continue
@@ -58,7 +59,7 @@ def gen_history(seed, mode, nops, policy, fsz, tsz, unit, step, slack, utc, bump
                 break
             if a == 'tick':
                 clock = x
-            elif a == 'write':
+            elif a in ('write', 'writenf'):
                 res['nrec'] += 1
                 for e in out['events']:
                     if e[0] == 'create':
@@ -88,10 +89,14 @@ def gen_history(seed, mode, nops, policy, fsz, tsz, unit, step, slack, utc, bump
     return res
 
 
-def _choose(rnd, rp, world, mode, policy, clock, closed, maxused, need_floor, nrec):
+def _choose(rnd, rp, world, mode, policy, clock, closed, maxused, need_floor, nrec, nf=False):
     ops = ['write'] * 6 + ['read'] * 5 + ['readblock'] * 2 + ['tick'] * 2 + ['seek', 'tell', 'refresh', 'delete',
                                                                               'close', 'reopen', 'reopen']
+    if nf:
+        ops += ['flush'] * 2
     a = rnd.choice(ops)
+    if a == 'flush':
+        return None if W in closed else ('flush', W, 0, 0)
     names = sorted(os.listdir(world.logs))
     newest = max([rp.ts_of_name(n) for n in names], default=0)
     if a == 'write':
@@ -108,7 +113,7 @@ def _choose(rnd, rp, world, mode, policy, clock, closed, maxused, need_floor, nr
             return None
         if t and rnd.random() < 0.3:
             t += 100                  # the caller's timestamp has a sub-microsecond fraction (time.time() floats do)
-        return ('write', W, size, t)
+        return ('writenf' if nf and rnd.random() < 0.6 else 'write', W, size, t)
     if a == 'tick':
         t = clock + rnd.choice((1, 1, 2)) if policy == 'mono' else max(1, clock + rnd.choice((-2, -1, 1, 1, 2)))
         return ('tick', 'env', t, 0) if t <= 58 and t != clock else None
